@@ -1,7 +1,8 @@
 /-
   C20 — the array of the binary heap always holds exactly the multiset pushed minus the elements popped or removed:
   `heapify_up` / `heapify_down` only swap elements (`siftUp_perm`, `siftDown_perm`), so `push` adds exactly its argument
-  (`C20_heap_push_perm`) and `pop` removes exactly one occurrence of the element it returns (`C20_heap_pop_perm`).
+  (`C20_heap_push_perm`), `pop` removes exactly one occurrence of the element it returns (`C20_heap_pop_perm`) and
+  `remove` takes out copies of its argument only, as many as it reports (`C20_heap_remove_perm`).
   (That the element returned is a maximal one is checked by the correspondence against the reference bag, whose `pop`
   is proved to return a maximum — `C20_spec_pop`.)
 -/
@@ -101,6 +102,91 @@ theorem C20_heap_pop_perm (h : Heap) (top : Int) (ht : h.data[0]? = some top) :
 /-- an empty heap pops nothing -/
 theorem C20_heap_pop_empty (h : Heap) (ht : h.data[0]? = none) : pop h = (h, none) := by
   unfold pop; rw [ht]
+
+/-- overwriting slot `i` with the last element and dropping the last slot removes exactly the element of slot `i` -/
+theorem dropAt_perm (a : Array Int) (i : Nat) (hi : i < a.size) :
+    (((a.set! i a.back!).pop).push (a.getD i 0)).Perm a := by
+  have hn : a.size - 1 < a.size := by omega
+  have hb : a.back! = a[a.size - 1] := by simp [Array.back!, hn]
+  have hg : a.getD i 0 = a[i] := by simp [Array.getD, hi]
+  have : ((a.set! i a.back!).pop).push (a.getD i 0) = a.swap i (a.size - 1) hi hn := by
+    rw [hb, hg]
+    apply Array.ext
+    · simp; omega
+    · intro k h1 h2
+      have hk : k < a.size := by simpa using h2
+      rw [Array.getElem_swap hi hn h2, Array.getElem_push]
+      by_cases h3 : k < a.size - 1
+      · have h3' : k < ((a.set! i a[a.size - 1]).pop).size := by simpa using h3
+        rw [dif_pos h3', Array.getElem_pop]
+        simp only [Array.set!]
+        rw [Array.getElem_setIfInBounds]
+        by_cases h4 : i = k
+        · subst h4; simp
+        · have h5 : k ≠ a.size - 1 := by omega
+          simp [h4, Ne.symm h4, h5]
+        exact hk
+      · have h3' : ¬ k < ((a.set! i a[a.size - 1]).pop).size := by simpa using h3
+        rw [dif_neg h3']
+        have h5 : k = a.size - 1 := by omega
+        subst h5
+        by_cases h4 : a.size - 1 = i
+        · simp [h4]
+        · simp [h4]
+  rw [this]
+  exact Array.swap_perm hi hn
+
+
+theorem perm_size {a b : Array Int} (h : a.Perm b) : a.size = b.size := by
+  have := (Array.perm_iff_toList_perm.1 h).length_eq
+  simpa using this
+
+/-- `lp_polynomial_heap_remove`: what is left, together with the removed copies of `x`, is what was there -/
+theorem removeLoop_perm (x : Int) : ∀ (fuel i : Nat) (a : Array Int) (cnt : Nat),
+    cnt ≤ (removeLoop x fuel i a cnt).2 ∧
+    ((removeLoop x fuel i a cnt).1.toList ++ List.replicate ((removeLoop x fuel i a cnt).2 - cnt) x).Perm a.toList := by
+  intro fuel
+  induction fuel with
+  | zero => intro i a cnt; simp [removeLoop]
+  | succ f ih =>
+    intro i a cnt
+    unfold removeLoop
+    by_cases hi : i ≥ a.size
+    · simp [hi]
+    · have hi' : i < a.size := by omega
+      simp only [if_neg hi]
+      by_cases hx : a.getD i 0 = x
+      · simp only [if_pos hx]
+        generalize ha2 : (if i < ((a.set! i a.back!).pop).size then
+            siftDown (siftUp ((a.set! i a.back!).pop) (((a.set! i a.back!).pop).size + 1) (i + 1)) ((a.set! i a.back!).pop).size
+              (((a.set! i a.back!).pop).size + 1) (i + 1) else (a.set! i a.back!).pop) = a2
+        have hperm2 : a2.Perm ((a.set! i a.back!).pop) := by
+          rw [← ha2]
+          split
+          · rename_i hlt
+            have p1 := siftUp_perm (((a.set! i a.back!).pop).size + 1) ((a.set! i a.back!).pop) (i + 1) (by omega)
+            refine Array.Perm.trans (siftDown_perm _ _ _ _ ?_ (by omega)) p1
+            rw [perm_size p1]; exact Nat.le_refl _
+          · exact Array.Perm.refl _
+        obtain ⟨h1, h2⟩ := ih 0 a2 (cnt + 1)
+        refine ⟨by omega, ?_⟩
+        have hd := dropAt_perm a i hi'
+        rw [hx] at hd
+        have e : (removeLoop x f 0 a2 (cnt + 1)).2 - cnt = ((removeLoop x f 0 a2 (cnt + 1)).2 - (cnt + 1)) + 1 := by omega
+        rw [e, List.replicate_succ', ← List.append_assoc]
+        have h3 : (a2.toList ++ [x]).Perm a.toList := by
+          have := Array.perm_iff_toList_perm.1 (Array.Perm.trans (Array.Perm.push x hperm2) hd)
+          simpa using this
+        exact (h2.append_right [x]).trans h3
+      · simp only [if_neg hx]
+        exact ih (i + 1) a cnt
+
+/-- **remove takes out copies of its argument only, and as many as it reports** -/
+theorem C20_heap_remove_perm (h : Heap) (x : Int) :
+    ((remove h x).1.data.toList ++ List.replicate (remove h x).2 x).Perm h.data.toList := by
+  unfold remove
+  have := (removeLoop_perm x ((h.data.size + 1) * (h.data.size + 1) + 1) 0 h.data 0).2
+  simpa using this
 
 end Heap
 end LP
